@@ -288,3 +288,36 @@ func c05spdx(maxN, maxR int, variants bool) {
 		c05variants(mk, p, formats.SPDX23JSON, "C05.spdx")
 	}
 }
+
+// H_C05_ReusedReader: auto-detection equals the explicit format also for a reader that has parsed something else
+// before (a CycloneDX document, then an SPDX one, or the other way round).
+func H_C05_ReusedReader() {
+	cdx := jObj(jm{"bomFormat", jStr("CycloneDX")}, jm{"specVersion", jStr("1.5")}, jm{"version", jNum(1)},
+		jm{"metadata", jObj(jm{"component", jObj(jm{"type", jStr("library")}, jm{"name", jStr("c")}, jm{"bom-ref", jStr("root")})})},
+		jm{"components", jArr(jObj(jm{"type", jStr("library")}, jm{"name", jStr("d")}))})
+	id := rt.NondetString("id")
+	rt.Assume(rt.StrPlain(id))
+	spdxd := jObj(jm{"spdxVersion", jStr("SPDX-2.3")}, jm{"dataLicense", jStr("CC0-1.0")}, jm{"SPDXID", jStr("SPDXRef-DOCUMENT")}, jm{"name", jStr("doc")},
+		jm{"documentNamespace", jStr("https://example.com/doc")}, jm{"documentDescribes", jArr(jStr("SPDXRef-" + id))},
+		jm{"packages", jArr(jObj(jm{"SPDXID", jStr("SPDXRef-" + id)}, jm{"name", jStr("p")}, jm{"downloadLocation", jStr("NOASSERTION")}))})
+	docs := []*rt.J{cdx, spdxd}
+	fmts := []formats.Format{formats.CDX15JSON, formats.SPDX23JSON}
+	k := rt.NondetChoice("firstformat", 2)
+	r := reader.New()
+	if _, err := r.ParseStream(rt.NewJSONStream(docs[k])); err != nil {
+		rt.Assert(false, "C05.reused.first")
+		return
+	}
+	// the second document, through the same reader with auto-detection and through a fresh reader with the format stated
+	second, err := r.ParseStream(rt.NewJSONStream(docs[1-k]))
+	explicit := c05parse(rt.NewJSONStream(docs[1-k]), fmts[1-k])
+	if err != nil || second == nil || second.NodeList == nil || !explicit.ok {
+		rt.Assert(false, "C05.reused.second")
+		return
+	}
+	p := parsed{ok: true, roots: second.NodeList.RootElements, edges: second.NodeList.Edges}
+	for _, n := range second.NodeList.Nodes {
+		p.ids = append(p.ids, n.Id)
+	}
+	rt.Assert(sameParse(p, explicit), "C05.reused.sameasexplicit")
+}
